@@ -83,6 +83,7 @@ Expected(x) ==
     [] x.pc = "FC_BSSeen"        -> Exp("db", "bs:seen", x.h, 0)
     [] x.pc = "FC_BSState"       -> Exp("db", "bs:state", x.h, IF x.bs_base = 0 THEN x.h ELSE x.bs_base)
     [] x.pc = "FC_WalEndHeight"  -> Exp("wal", "endheight", x.h, 0)
+    [] x.pc = "R_RepairEndHeight" -> Exp("wal", "endheight", x.cs_h - 1, 0)
     [] x.pc = "FC_PruneBSState"  -> Exp("db", "bs:state", x.bs_h, x.retain)
     [] x.pc = "FC_PruneBSBatch"  -> Exp("db", "bs:batch", 0, 0)
     [] x.pc = "FC_PruneSSBatch"  -> Exp("db", "ss:batch", 0, 0)
@@ -110,10 +111,12 @@ CursorClass(p) == IF p.bs_h \notin {p.ss_h, p.ss_h + 1} THEN "store_vs_state"
                   ELSE IF p.app_h < p.ss_h /\ ~rolled THEN "state_ahead_of_app"
                   ELSE IF p.app_h > p.ss_h + 1 THEN "app_two_ahead_of_state" ELSE ""
 
-\* invariants on a logged projection, checked after every line
-PostViol(p) ==
-  FailIf(CursorClass(p) # "", V("CursorsWithinOne", CursorClass(p)))
-  \cup FailIf(p.wal_end > p.bs_h, V("WalEndImpliesStored", "endheight_before_block_saved"))
+\* invariants on a logged projection, checked after every line; a failure is reported at the
+\* step that breaks the invariant (not again on every later line while the state stays broken)
+PostBad(p) ==
+  (IF CursorClass(p) # "" THEN {<<"CursorsWithinOne", CursorClass(p)>>} ELSE {})
+  \cup (IF p.wal_end > p.bs_h THEN {<<"WalEndImpliesStored", "endheight_before_block_saved">>} ELSE {})
+PostViol(p) == {V(x[1], x[2]) : x \in PostBad(p) \ PostBad(prev)}
 
 \* ------------------------------------------------------------------ steps
 StepReset(e) ==
@@ -125,8 +128,11 @@ StepReset(e) ==
 StepOp(e) ==
   LET x    == Close(s, e, 24)
       walm == IsWalMsg(e)
-      ok   == IF walm THEN x.pc = "CS" ELSE Matches(x, e)
-      y    == IF walm THEN [x EXCEPT !.wal = Append(x.wal, WalRec(e))] ELSE Do(x)
+      ok   == IF walm THEN x.pc \in {"CS", "Stalled"} ELSE Matches(x, e)
+      y    == IF walm THEN [x EXCEPT !.wal = Append(x.wal, WalRec(e)),
+                                     !.pv = IF e.k \in {"msg:part", "msg:prevote", "msg:precommit"} /\ e.h >= x.pv.h
+                                            THEN [h |-> e.h, step |-> 2] ELSE x.pv]
+              ELSE Do(x)
       okp  == Proj(y) = e.post
       \* level 2
       jop  == IsJournalOp(e)
@@ -162,7 +168,7 @@ StepOp(e) ==
 
 StepCrash(e) ==
   LET x  == Close(s, e, 24)
-      ok == IF IsWalMsg(e) THEN x.pc = "CS" ELSE Matches(x, e) IN
+      ok == IF IsWalMsg(e) THEN x.pc \in {"CS", "Stalled"} ELSE Matches(x, e) IN
   /\ s'  = IF l1 /\ ok THEN CrashOf(x, Label(x)) ELSE s
   /\ l1' = (l1 /\ ok)
   /\ drift' = drift \cup FailIf(l1 /\ ~ok, D("crash before " \o e.op \o "/" \o e.k \o ": not the operation the spec executes next", x))
@@ -188,7 +194,7 @@ StepHandshakeDone(e) ==
 \* the node could not start / stopped making progress: HandshakeError | Panic | Stuck
 StepFailed(e) ==
   LET x  == Close(s, e, 24)
-      ok == x.pc \in {"HS_Error", "Panic"} IN
+      ok == x.pc \in {"HS_Error", "Panic", "Stalled"} IN
   /\ s' = s
   /\ l1' = FALSE
   /\ drift' = drift \cup FailIf(l1 /\ ~ok, D(e.ev \o " (" \o e.msg \o ") is not predicted by the spec", x))
